@@ -41,6 +41,9 @@ pub struct Ctx {
     /// source endpoint = destination endpoint (same address, same port)
     #[serde(default)]
     pub self_addressed: bool,
+    /// the three reserved bits of the TCP header (between data offset and NS): not flags
+    #[serde(default)]
+    pub reserved: u8,
 }
 
 pub fn ctx_strategy() -> impl Strategy<Value = Ctx> {
@@ -53,9 +56,9 @@ pub fn ctx_strategy() -> impl Strategy<Value = Ctx> {
         prop_oneof![3 => Just(0u8), 1 => 1u8..=10],
         prop_oneof![2 => Just(Hist::None), 1 => (1u8..4).prop_map(Hist::OtherFlows), 1 => any::<u32>().prop_map(Hist::EarlierSyn), 1 => Just(Hist::Validated)],
         any::<u8>(),
-        (any::<[u64; 2]>(), prop::bool::weighted(0.06)),
+        (any::<[u64; 2]>(), prop::bool::weighted(0.06), prop_oneof![3 => Just(0u8), 1 => 1u8..8]),
     )
-        .prop_map(|(mut scn, mut sport, dport, seq, payload, opt_words, hist, salt, (key2, self_addressed))| {
+        .prop_map(|(mut scn, mut sport, dport, seq, payload, opt_words, hist, salt, (key2, self_addressed, reserved))| {
             if self_addressed {
                 scn.net.cip = scn.net.sip;
                 sport = dport;
@@ -64,7 +67,7 @@ pub fn ctx_strategy() -> impl Strategy<Value = Ctx> {
                     d.retain(|a| *a != c);
                 }
             }
-            Ctx { scn, sport, dport, seq, payload, opt_words, hist, salt, key2, self_addressed }
+            Ctx { scn, sport, dport, seq, payload, opt_words, hist, salt, key2, self_addressed, reserved }
         })
 }
 
@@ -73,7 +76,7 @@ pub fn syn_accepted(flags: u16) -> bool {
 }
 
 fn syn_frame(c: &Ctx, net: &Net, sport: u16, dport: u16, flags: u16, seq: u32) -> Vec<u8> {
-    let mut h = TcpH::new(sport, dport, seq, 0, flags);
+    let mut h = TcpH::new(sport, dport, seq, 0, flags | ((c.reserved as u16 & 7) << 9));
     // options: MSS + NOPs, consistent data offset
     if c.opt_words > 0 {
         let mut o = vec![2u8, 4, 0x05, 0xb4];
@@ -127,6 +130,9 @@ pub fn check(c: &Ctx, st: &mut Stats) -> Check {
     st.class(if net.is_v4() { "ip:v4" } else { "ip:v6" });
     if c.self_addressed {
         st.class("self-addressed-tuple");
+    }
+    if c.reserved != 0 {
+        st.class("reserved-header-bits-set");
     }
     // all 512 flag values
     let mut cookie: Option<u32> = None;
